@@ -180,7 +180,7 @@ def feval(e, env):
         return math.pow(feval(e[1], env), feval(e[2], env))    # always a REAL power (what the translation to pow() assumes)
     if k == "call":
         a = [float(feval(x, env)) for x in e[2]]
-        f = {"dexp": "exp"}.get(e[1], e[1])
+        f = {"dexp": "exp", "dsqrt": "sqrt", "dlog": "log", "dlog10": "log10", "dabs": "abs"}.get(e[1], e[1])
         return {"exp": math.exp, "sqrt": math.sqrt, "log": math.log, "log10": math.log10, "abs": abs}[f](*a)
     if k == "bin":
         l, r = feval(e[2], env), feval(e[3], env)
@@ -318,7 +318,9 @@ def run(argv):
              "1.2d-8/(Tgas/3.d2)", "Te/(T32/invTe)", "2.0/(Tgas/300.0)/(Te/2.0)", "Tgas-(Te-T32)", "Tgas/(Te*T32)", "Tgas-(Te+T32)",
              # an exponent that is a variable (or a call), followed by further terms - with and without blanks
              "4.0d-10*(T32**user_x+0.25+nH*invT)", "4.0d-10*(T32**user_x + 0.25 + nH*invT)", "Tgas**user_x-1-1", "Tgas**user_x - 1 - 1",
-             "Tgas**user_x-1.5d0+Te", "T32**sqrt(Te)+0.5+Te", "T32**Te2x+2+Tgas", "Te**user_x-0.5*Tgas-2.0"]
+             "Tgas**user_x-1.5d0+Te", "T32**sqrt(Te)+0.5+Te", "T32**Te2x+2+Tgas", "Te**user_x-0.5*Tgas-2.0",
+             # the double-precision specific names of the supported intrinsics
+             "1d-10*dsqrt(Tgas)", "dlog(Tgas)+dlog10(Te)*2d0", "dabs(Tgas-3d2)*dexp(-1d0/Te)", "user_dexp*dsqrt(T32)"]
     n_fixed = len(exprs)
     for f in [REPO / "tests/data/primordial.krome", REPO / "naunet/examples/primordial/primordial.krome",
               REPO / "naunet/examples/deuterium/deuterium.krome", REPO / "tests/data/minimal.krome"]:
@@ -462,12 +464,15 @@ def compiled_intrinsics(chk, rng):
     from .common import ROOT
     from .rendering import render
     from .ode_checks import reset_species_state
-    lines = ["@var:xa = abs(Tgas/3d2 - 2.5d0)", "@format:idx,R,R,P,rate",
+    # (KROME declares every @var as real*8: `nd` is 3.0 and `1/nd` a real quotient, whatever the literal looks like)
+    lines = ["@var:xa = abs(Tgas/3d2 - 2.5d0)", "@var:nd = 3", "@var:nhalf = 7", "@format:idx,R,R,P,rate",
              "1,H,H,H2,1.0d-10*abs(Tgas/1d2 - 3.7d0)",
              "2,H,E,H+,3d-11*sqrt(xa) + 1d-12*exp(-1d0*xa)",
              "3,H2,E,H,1d-12*log10(Tgas)*abs(-0.4d0)",
              "4,H+,E,H,1d-13*log(Tgas)/abs(0.25d0 - Tgas*1d-3)",
-             "5,H2,H,H,2d-10*abs(xa - 0.75d0)"]
+             "5,H2,H,H,2d-10*abs(xa - 0.75d0)",
+             "6,H,H,H2,1d-10*dsqrt(Tgas)*dabs(xa - 0.75d0)/dlog10(Tgas) + 1d-12*dlog(Tgas)",
+             "7,H2,H,H,1d-10*Tgas**(1/nd) + nhalf/2*6d-10"]
     frates = [l.split(",")[-1] for l in lines if l[0].isdigit()]
     temps = [rng.uniform(20.0, 240.0), rng.uniform(260.0, 700.0), rng.uniform(800.0, 2000.0), 315.0]
     for backend in ("dense", "rosenbrock4"):
@@ -504,6 +509,7 @@ def compiled_intrinsics(chk, rng):
             got = [float(x) for x in row.split("|")[0].split()]
             fenv = {"Tgas": t, "Te": t * 8.617343e-5, "T32": t / 300.0, "invT": 1.0 / t}
             fenv["xa"] = float(feval(fparse("abs(Tgas/3d2 - 2.5d0)")[0], fenv))
+            fenv["nd"], fenv["nhalf"] = 3.0, 7.0
             want = [float(feval(fparse(fx)[0], fenv)) for fx in frates]
             chk.count(("krome-compiled", backend, t), nontrivial=True)
             chk.hist["krome-compiled"] += 1
